@@ -1762,6 +1762,10 @@ class RepeatingEngine(Engine):
                 self.kernelCompleted = lastAction
                 if self.kernelCompleted:
                     self.log.info("I am now considered finished! - No more executions")
+                else:
+                    # VV: kill-after-producers-done-delay expired between two invocations while self.process was
+                    # a finished task: suicide() only signalled that task. Stop the monitor now.
+                    self.kill()
             else:
                 # By default assume new output - only check if requested
                 isNewOutput = True
